@@ -2671,6 +2671,43 @@ def row_text(binc, t, k):
     run(t['body'], {})
     return ''.join(out)
 
+def rule_whole_sequences(F, R, which):
+    """the functions that list things list all of them: the node / edge walkers of the two exporters, `node_list`, `extract_vars` and the -r
+    listing of main build their results from whole sequences - no `skip`, `take`, `step_by`, `skip_while`, `take_while`, `nth`, `last` anywhere in
+    them (an element dropped from one of these lists is a node missing from the export, a variable missing from the ordering)"""
+    lib, binc = F.lib(), F.bin()
+    FORBID = ('skip', 'take', 'step_by', 'skip_while', 'take_while', 'nth', 'last', 'truncate', 'pop', 'swap_remove', 'drain', 'split_off')
+    groups = {
+        'dot': (lib, lambda n: n.startswith('rsbdd::bdd_io::BDDGraph::') or 'bdd_io::BDDGraph' in n and 'GraphWalk' in n),
+        'parsetree': (lib, lambda n: n.startswith('rsbdd::parser_io::SymbolicParseTree::') or 'parser_io::SymbolicParseTree' in n and 'GraphWalk' in n),
+        'node_list': (lib, lambda n: n.startswith('rsbdd::bdd::BDD::node_list') or n.startswith('rsbdd::bdd::BDDEnv::node_list') or n.startswith('rsbdd::bdd::BDDEnv::duplicates') or n.startswith('rsbdd::bdd::BDDEnv::size')),
+        'vars': (lib, lambda n: n.startswith('rsbdd::parser::ParsedFormula::extract_vars')),
+    }
+    n = 0
+    for g in which:
+        if g == 'ordering':
+            # the -r block of main: the statements under `if args.export_ordering`
+            main = binc.ithir.get('rsbdd::main') if binc else None
+            if main is None: continue
+            for e in walk(main['body']):
+                if e['k'] == 'If' and 'export_ordering' in [x.get('field_name') for x in walk(e['cond']) if x['k'] == 'Field']:
+                    n += 1
+                    bad = [x for x in walk(e['then']) if x['k'] == 'Call' and (callee_name(x) or '').split('::')[-1] in FORBID]
+                    for x_ in list(walk(e['then'])):
+                        if x_['k'] == 'Closure' and canon(x_['def']) in binc.ithir: bad += [y for y in walk(binc.ithir[canon(x_['def'])]['body']) if y['k'] == 'Call' and (callee_name(y) or '').split('::')[-1] in FORBID]
+                    R.obligation(not bad, 'whole sequences -r')
+                    for x in bad: R.violation('rsbdd::main / X4 / -r lists every variable', 'X4', 'the ordering export passes its list through `%s`: a variable is missing from the output' % (callee_name(x) or '').split('::')[-1], x.get('loc'))
+            continue
+        crate, pred = groups[g]
+        for name, t in sorted(crate.ithir.items()):
+            if not pred(name) or '@inl' in name: continue
+            n += 1
+            bad = [x for x in walk(t['body']) if x['k'] == 'Call' and (callee_name(x) or '').split('::')[-1] in FORBID]
+            R.obligation(not bad, 'whole sequences ' + name)
+            for x in bad:
+                R.violation('%s / X7 / whole sequences' % name.split('::{closure')[0], 'X7', '%s passes a sequence through `%s`: an element is dropped from a list that must be complete' % (name.split('::{closure')[0].split('::')[-1], (callee_name(x) or '').split('::')[-1]), x.get('loc'))
+    R.count('X7:whole-sequence-functions', n)
+
 def rule_X4_flags(F, R):
     """each kind of output is produced when, and only when, it is asked for: in main the table printer runs under args.truthtable, the
     listing under args.vars, the ordering export under args.export_ordering (value provenance of the path conditions)"""
